@@ -571,18 +571,22 @@ inductive OutcomeT
   | errPreprocess
   /-- `Template.Execute` failed (error or panic) in the loop or in the final rendering -/
   | tmplErr (e : XErr)
+  /-- the tokenizer returned an error while measuring -/
+  | tokErr
   | ok (evals n : Nat) (system retained : List Msg) (images : List ImgOut) (prompt : Bytes)
   deriving DecidableEq, Repr
 
 /-- `chatPrompt` for a parsed template `t` and tokenizer `mode`: the generic `chatPrompt` with
-    `cost`/`bad` obtained by executing the template, followed by the final `Execute`. -/
-def chatPromptT (cfg : Cfg) (tv : TVar) (t : List Node) (mode : Nat) (msgs : List Msg) : OutcomeT :=
+    `cost`/`bad` obtained by executing the template, followed by the final `Execute`.
+    `tokFail = some i`: the tokenizer fails when asked to measure `system(i) ++ msgs[i:]`. -/
+def chatPromptT (cfg : Cfg) (tv : TVar) (t : List Node) (mode : Nat) (msgs : List Msg)
+    (tokFail : Option Nat := none) : OutcomeT :=
   let cost := fun i => match renderAt tv t msgs i with
     | .ok b => tokenCount mode b
     | .err _ => 0
-  let bad := fun i => match renderAt tv t msgs i with
+  let bad := fun i => (match renderAt tv t msgs i with
     | .ok _ => false
-    | .err _ => true
+    | .err _ => true) || tokFail == some i
   match chatPrompt cfg cost bad msgs with
   | .panicEmpty => .panicEmpty
   | .errTooMany => .errTooMany
@@ -590,7 +594,7 @@ def chatPromptT (cfg : Cfg) (tv : TVar) (t : List Node) (mode : Nat) (msgs : Lis
   | .execFail i =>
     match renderAt tv t msgs i with
     | .err e => .tmplErr e
-    | .ok _ => .tmplErr .exec
+    | .ok _ => .tokErr
   | .ok q n sys ret imgs =>
     match execute tv t ((sys ++ ret).map toRMsg) with
     | .err e => .tmplErr e
